@@ -29,19 +29,22 @@ ForLoop(L, v, body) ==
                 IF hasIncr THEN Asg(x, Bin("+", Id(x), Lit(N(1)))) ELSE None, b)
   IN SBlock((IF hasInit THEN <<>> ELSE <<SVar(x, Lit(N(0)))>>) \o <<f, Tp>>)
 
-Leaves(L) == {[t |-> Tp, c |-> "T"]} \cup (IF L > 0 THEN {[t |-> SBreak, c |-> "break"], [t |-> SContinue, c |-> "continue"]} ELSE {})
+(* sequences, not sets: TLC's union of large sets of large records is quadratic *)
+Cross(A, B, F(_, _)) == FlattenSeq([i \in 1..Len(A) |-> [j \in 1..Len(B) |-> F(A[i], B[j])]])
+Map(A, F(_)) == [i \in 1..Len(A) |-> F(A[i])]
+Leaves(L) == <<[t |-> Tp, c |-> "T"]>> \o (IF L > 0 THEN <<[t |-> SBreak, c |-> "break"], [t |-> SContinue, c |-> "continue"]>> ELSE <<>>)
 RECURSIVE Gen(_, _)
 Gen(d, L) ==
   IF d = 0 THEN Leaves(L)
-  ELSE LET sub == Gen(d - 1, L)  inl == Gen(d - 1, L + 1) IN
+  ELSE LET sub == Gen(d - 1, L)  inl == Gen(d - 1, L + 1)  cds == SetToSeq(Conds(L)) IN
        Leaves(L)
-       \cup { [t |-> SIf(cd[2], x.t, None), c |-> "if_" \o cd[1] \o "(" \o x.c \o ")"] : cd \in Conds(L), x \in sub }
-       \cup { [t |-> SIf(cd[2], x.t, Tp), c |-> "ifT_" \o cd[1] \o "(" \o x.c \o ")"] : cd \in Conds(L), x \in sub }
-       \cup { [t |-> SIf(cd[2], Tp, x.t), c |-> "ifE_" \o cd[1] \o "(" \o x.c \o ")"] : cd \in Conds(L), x \in sub }
-       \cup { [t |-> WhileLoop(L + 1, x.t), c |-> "while(" \o x.c \o ")"] : x \in inl }
-       \cup { [t |-> ForLoop(L + 1, v, x.t), c |-> "for" \o IntStr(v) \o "(" \o x.c \o ")"] : v \in 0..7, x \in inl }
-       \cup { [t |-> SBlock(<<x.t, Tp>>), c |-> "{" \o x.c \o ";T}"] : x \in sub }
-       \cup { [t |-> SBlock(<<Tp, x.t>>), c |-> "{T;" \o x.c \o "}"] : x \in sub }
+       \o Cross(cds, sub, LAMBDA cd, x : [t |-> SIf(cd[2], x.t, None), c |-> "if_" \o cd[1] \o "(" \o x.c \o ")"])
+       \o Cross(cds, sub, LAMBDA cd, x : [t |-> SIf(cd[2], x.t, Tp), c |-> "ifT_" \o cd[1] \o "(" \o x.c \o ")"])
+       \o Cross(cds, sub, LAMBDA cd, x : [t |-> SIf(cd[2], Tp, x.t), c |-> "ifE_" \o cd[1] \o "(" \o x.c \o ")"])
+       \o Map(inl, LAMBDA x : [t |-> WhileLoop(L + 1, x.t), c |-> "while(" \o x.c \o ")"])
+       \o Cross(<<0, 1, 2, 3, 4, 5, 6, 7>>, inl, LAMBDA v, x : [t |-> ForLoop(L + 1, v, x.t), c |-> "for" \o IntStr(v) \o "(" \o x.c \o ")"])
+       \o Map(sub, LAMBDA x : [t |-> SBlock(<<x.t, Tp>>), c |-> "{" \o x.c \o ";T}"])
+       \o Map(sub, LAMBDA x : [t |-> SBlock(<<Tp, x.t>>), c |-> "{T;" \o x.c \o "}"])
 
 Stray == LET sig == { <<"break", SBreak>>, <<"continue", SContinue>>, <<"return", SReturn(None)>>, <<"returnv", SReturn(Lit(N(7)))>> } IN
          { [t |-> s[2], c |-> "stray_" \o s[1]] : s \in sig }
@@ -56,7 +59,7 @@ Tag(t) == IF t.k = "none" THEN t
           ELSE IF t.c = <<>> THEN t
           ELSE [t EXCEPT !.c = [i \in 1..Len(t.c) |-> Tag(t.c[i])]]
 
-Cases == SetToSeq(Gen(Depth, 0) \cup Stray)
+Cases == Gen(Depth, 0) \o SetToSeq(Stray)
 Programs == [i \in 1..Len(Cases) |-> Tag(LayoutProg(<<Tp, Cases[i].t, Tp>>, 1))]
 FamProgOf(i) == Programs[i]
 
